@@ -129,11 +129,17 @@ func record(env *core.Env, emit func(map[string]any)) (*core.Summary, error) {
 
 // recordFan: opt procs=N records the n traces in N child processes (one wallet per process at
 // a time) and concatenates their events.
-func recordFan(env *core.Env, emit func(map[string]any)) (*core.Summary, error) {
+func recordFan(name string, rec core.Recorder) core.Recorder {
+	return func(env *core.Env, emit func(map[string]any)) (*core.Summary, error) {
+		return recordFanOut(name, rec, env, emit)
+	}
+}
+
+func recordFanOut(name string, rec core.Recorder, env *core.Env, emit func(map[string]any)) (*core.Summary, error) {
 	procs := env.OptInt("procs", 0)
 	n := env.OptInt("n", 6)
 	if procs <= 1 || n <= 1 {
-		return record(env, emit)
+		return rec(env, emit)
 	}
 	if procs > n {
 		procs = n
@@ -172,7 +178,7 @@ func recordFan(env *core.Env, emit func(map[string]any)) (*core.Summary, error) 
 			tp := fmt.Sprintf("%s/t%d.ndjson", dir, i)
 			sp := fmt.Sprintf("%s/s%d.json", dir, i)
 			cmd := exec.Command(os.Args[0], "record", "--out", tp, "--summary", sp, "--prop", env.Prop, "--tier", env.Tier,
-				"--seed", fmt.Sprint(env.Seed), "--recorder", "default", "--opt", strings.Join(opts, ","))
+				"--seed", fmt.Sprint(env.Seed), "--recorder", name, "--opt", strings.Join(opts, ","))
 			cmd.Stderr = os.Stderr
 			if o, err := cmd.Output(); err != nil {
 				out[i].err = fmt.Errorf("record child %d: %v %s", i, err, clipTail(string(o)))
